@@ -1,8 +1,11 @@
-// Command rewrite prepares a scratch copy of crewjam/saml for the C20 `sched` profile:
-// every sync.Mutex / sync.RWMutex *type reference* in samlidp/*.go (non-test files)
-// becomes simsync.Mutex / simsync.RWMutex, and the simsync package is copied in.
+// Command rewrite prepares a scratch copy of crewjam/saml for simulation; the simsync package is copied in.
 //
-//	rewrite <scratch repo copy> <dir holding simsync sources>
+//	rewrite <scratch repo copy> <dir holding simsync sources> mutex|pool|mutex,pool
+//
+// mutex (the C20 `sched` profile): every sync.Mutex / sync.RWMutex *type reference* in samlidp/*.go
+// (non-test files) becomes simsync.Mutex / simsync.RWMutex.
+// pool (every profile, only when the tree under test uses sync.Pool at all): every sync.Pool type
+// reference in any non-test file becomes simsync.Pool, the simulator's allocator seam.
 package main
 
 import (
@@ -24,10 +27,14 @@ func die(format string, a ...any) {
 }
 
 func main() {
-	if len(os.Args) != 3 {
-		die("usage: rewrite <repo copy> <simsync dir>")
+	if len(os.Args) != 4 {
+		die("usage: rewrite <repo copy> <simsync dir> mutex|pool|mutex,pool")
 	}
 	repo, src := os.Args[1], os.Args[2]
+	modes := map[string]bool{}
+	for _, m := range strings.Split(os.Args[3], ",") {
+		modes[m] = true
+	}
 	if err := os.MkdirAll(filepath.Join(repo, "simsync"), 0o755); err != nil {
 		die("%v", err)
 	}
@@ -46,18 +53,36 @@ func main() {
 			}
 		}
 	}
-	files, _ := filepath.Glob(filepath.Join(repo, "samlidp", "*.go"))
 	total := 0
-	for _, f := range files {
-		if strings.HasSuffix(f, "_test.go") {
-			continue
+	_ = filepath.WalkDir(repo, func(f string, d os.DirEntry, err error) error {
+		if err != nil {
+			return nil
 		}
-		total += rewriteFile(f)
-	}
-	fmt.Printf("rewrote %d mutex type references\n", total)
+		if d.IsDir() {
+			if n := d.Name(); n == "simsync" || n == "testdata" || n == "example" || (strings.HasPrefix(n, ".") && f != repo) {
+				return filepath.SkipDir
+			}
+			return nil
+		}
+		if !strings.HasSuffix(f, ".go") || strings.HasSuffix(f, "_test.go") {
+			return nil
+		}
+		names := map[string]bool{}
+		if modes["mutex"] && filepath.Base(filepath.Dir(f)) == "samlidp" {
+			names["Mutex"], names["RWMutex"] = true, true
+		}
+		if modes["pool"] {
+			names["Pool"] = true
+		}
+		if len(names) > 0 {
+			total += rewriteFile(f, names)
+		}
+		return nil
+	})
+	fmt.Printf("rewrote %d sync type references\n", total)
 }
 
-func rewriteFile(path string) int {
+func rewriteFile(path string, names map[string]bool) int {
 	fset := token.NewFileSet()
 	file, err := parser.ParseFile(fset, path, nil, parser.ParseComments)
 	if err != nil {
@@ -87,11 +112,10 @@ func rewriteFile(path string) int {
 		if !ok || id.Name != syncName || id.Obj != nil {
 			return true
 		}
-		switch sel.Sel.Name {
-		case "Mutex", "RWMutex":
+		if names[sel.Sel.Name] {
 			id.Name = "simsync"
 			n++
-		default:
+		} else {
 			otherUse = true
 		}
 		return true
